@@ -1790,7 +1790,7 @@ def measure_reinit_policy(repo):
         m = re.search(r'^<C_STRING><<EOF>>\s*\{(.*?)^\}', lex, re.S | re.M)
         out["eof_frees"] = bool(m and "string_delete" in m.group(1) and re.search(r"string_value\s*=\s*NULL", m.group(1)))
         # the policy of coq/VM/ApiGlobalCwd.v: the two chdir(cwd) of fopen_path's search loop
-        m = re.search(r"^FILE \* fopen_path\(.*?^\}", lex, re.S | re.M)
+        m = re.search(r"^FILE \* fopen_path\([^)]*\)\s*\{.*?^\}", lex, re.S | re.M)
         w = re.search(r"while \(\(path = strtok.*", m.group(0), re.S) if m else None
         found = re.search(r"if \(ffile != NULL\)\s*\{(.*?)break;", w.group(0), re.S) if w else None
         if found:
